@@ -2,7 +2,7 @@
    (on every stream that contains a draw hitting a usable channel -- and a usable channel always exists; see C09_*_refuted for the
    literal "every random stream", which the rejection loops do not satisfy: recorded known finding). *)
 From Coq Require Import NArith ZArith List Bool.
-From LoraV Require Import Base.Bytes Gen.RegionTables Model.Region Model.Mac Proofs.OtaaProofs Proofs.TxProofs Proofs.NoPanicProofs Model.Frame Model.NbDev Proofs.TxHistory Model.AsyncDev Proofs.AsyncTxHistory.
+From LoraV Require Import Base.Bytes Gen.RegionTables Model.Region Model.Mac Proofs.OtaaProofs Proofs.TxProofs Proofs.NoPanicProofs Model.Frame Model.NbDev Proofs.TxHistory Model.AsyncDev Proofs.AsyncTxHistory Proofs.SelectProgress.
 Import ListNotations.
 Local Open Scope nat_scope.
 
@@ -66,6 +66,22 @@ Theorem C09_dynamic_selection_progress : forall r p datarate dt, datarate_index 
   (forall d, In d draws -> dyn_random_in_range p d <> Panic /\ forall chn, dyn_random_in_range p d = Val chn -> is_enabled (dp_mask p) chn <> Panic) ->
   exists tc rest, dyn_select_data r p datarate draws = Val (tc, rest).
 Proof. exact dyn_select_data_progress. Qed.
+
+(* ... and so do the other sampling loops: the join request of a dynamic plan (a draw whose two low bits name a join channel: 0 always does)
+   and the mask-driven choice of a fixed plan (a draw that names an enabled channel of the required kind; C09_fixed_usable_channel shows one
+   is enabled after the fall-back, and every enabled channel of the range is named by some draw value) *)
+Theorem C09_dynamic_join_progress : forall r p dr dt, dyn_ok r p -> datarate_index r dr = Val (Some dt) ->
+  forall draws, existsb (fun d => N.land d 3 <? r_num_join r)%N draws = true -> exists tc rest, dyn_select_join r p dr draws = Val (tc, rest).
+Proof. exact dyn_join_progress. Qed.
+Theorem C09_fixed_selection_progress : forall r p dr sf bw mp, r_fixed r = true -> datarate_index r dr = Val (Some (sf, bw, mp)) ->
+  forall draws,
+  existsb (fun d => if (bw =? 9)%N then mask_bit (fix_fallback_mask (fp_mask p) true) (N.land d 7 + 64)
+                    else mask_bit (fix_fallback_mask (fp_mask p) false) (N.land d 63 + 0)) draws = true ->
+  exists tc p' rest, fix_select_masked r p dr draws = Val (tc, p', rest).
+Proof. exact fix_masked_progress. Qed.
+Theorem C09_every_enabled_channel_can_be_drawn : forall m bits base c, bits = N.ones (N.size bits) -> (base <= c <= base + bits)%N -> mask_bit m c = true ->
+  mask_bit m (N.land (c - base) bits + base) = true.
+Proof. exact fix_hit_exists. Qed.
 
 (* conducted power: never above the radio's maximum given to adjust_power (send passes min(commanded, board maximum)),
    never above 127, never above EIRP - antenna gain *)
